@@ -285,6 +285,11 @@ def register_all(M):
         (ra, ma, fa), (rb, mb, fb) = parts
         return SymF(sx.If(c, ra, rb), max(ma, mb), max(fa, fb))
 
+    @reg('harness::vrt::unordered')
+    def vrt_unordered(I, ext, a):
+        I.model_state['unordered'] = bool(a[0])
+        return UNIT()
+
     @reg('harness::vrt::assume')
     def assume(I, ext, a):
         I.ctx.assume(a[0])
@@ -354,6 +359,11 @@ def register_all(M):
         r = deref_to_value(a[0])
         return Ptr(r.inner, 0, r.meta)
 
+    @reg('<std::sync::Arc<T, A> as std::cmp::PartialEq>::eq')
+    def arc_eq(I, ext, a):
+        x, y = deref_to_value(a[0]), deref_to_value(a[1])
+        return M.val_eq(I, targ(ext), x.inner.f[0], y.inner.f[0])
+
     @reg('std::sync::Arc::<T, A>::ptr_eq')
     def arc_ptr_eq(I, ext, a):
         return deref_to_value(a[0]).inner is deref_to_value(a[1]).inner
@@ -388,8 +398,7 @@ def register_all(M):
         inner.strong -= 1
         if inner.strong == 0 and not inner.dropped:
             inner.dropped = True
-            ty = r.meta.ty if isinstance(r.meta, Dyn) else inner.ty
-            I.drop_value_at(inner, 0, ty)
+            I.drop_value_at(inner, 0, inner.ty)
         return UNIT()
     M.drops['std::sync::Arc'] = drop_arc
 
@@ -674,6 +683,16 @@ def register_all(M):
         v = deref_to_value(a[0])
         clone = clone_fn(I, v.et)
         return VecObj(v.et, [clone(Ptr(v, j)) for j in range(len(v.f))])
+
+    @reg_re(r'^std::vec::partial_eq::<impl std::cmp::PartialEq<std::vec::Vec<U, A2>> for std::vec::Vec<T, A1>>::eq$')
+    def vec_eq(I, ext, a):
+        x, y = deref_to_value(a[0]), deref_to_value(a[1])
+        if len(x.f) != len(y.f):
+            return False
+        for p, q in zip(x.f, y.f):
+            if not M.val_eq(I, x.et, p, q):
+                return False
+        return True
 
     def drop_vec(I, ext, a):
         v = deref_to_value(a[0])
@@ -1339,15 +1358,15 @@ def register_batch2(M):
 
     def iteration_order(I, n):
         """a permutation of range(n) chosen by the run (std's order depends on a per-process random seed)"""
-        if n <= 1:
+        if n <= 1 or I.model_state.get('unordered'):
             return list(range(n))
+        # bounded exploration of iteration orders: any element first, the others in insertion order or
+        # reversed (all n! orders for n <= 3, 2n of them beyond)
         rest = list(range(n))
-        out = []
-        while len(rest) > 1:
-            c = I.ctx.nondet_choice('hash-order', len(rest))
-            out.append(rest.pop(c))
-        out.append(rest[0])
-        return out
+        first = rest.pop(I.ctx.nondet_choice('hash-order-first', n))
+        if len(rest) > 1 and I.ctx.nondet_choice('hash-order-rest-reversed', 2) == 1:
+            rest.reverse()
+        return [first] + rest
     M.iteration_order = iteration_order
 
     @reg("<&'a std::collections::HashMap<K, V, S, A> as std::iter::IntoIterator>::into_iter", 'std::collections::HashMap::<K, V, S, A>::iter',
